@@ -163,18 +163,29 @@ def setup():
     def AsyncProcessResponse(self, sink_stack, context, stream, msg):
       sink_stack.AsyncProcessResponse(stream, msg)
 
+  class CallerError(Exception):
+    pass
+
   class Caller(ClientMessageSink):
     """Bottom of every sink stack: records what the caller of the balancer sees."""
 
     def __init__(self):
       ClientMessageSink.__init__(self)
       self.got = []
+      self.hook = None          # run from inside the handler (a caller that issues a follow-up request re-entrantly)
+      self.raises = False       # the handler raises (a sink above the balancer fails while handling the reply)
 
     def AsyncProcessRequest(self, sink_stack, msg, stream, headers):
       raise NotImplementedError()
 
     def AsyncProcessResponse(self, sink_stack, context, stream, msg):
       self.got.append(msg)
+      if self.hook is not None:
+        h, self.hook = self.hook, None
+        h()
+      if self.raises:
+        self.raises = False
+        raise CallerError('the caller failed while handling the reply')
 
   class RecStack(ClientMessageSinkStack):
     """The real sink stack; additionally remembers what was pushed (to invoke a context twice)."""
@@ -245,7 +256,7 @@ def setup():
             MessageProperties=MessageProperties, HeapBalancerSink=HeapBalancerSink,
             ApertureBalancerSink=ApertureBalancerSink, Message=Message, MethodReturnMessage=MethodReturnMessage,
             TimeoutError=TimeoutError, Chan=Chan, Caller=Caller, RecStack=RecStack, Provider=Provider,
-            Member=Member, ServerSet=ServerSet, rnd=rnd, tap=tap, heapmod=heapmod, stubq=stubq, BalProv=BalProv,
+            CallerError=CallerError, Member=Member, ServerSet=ServerSet, rnd=rnd, tap=tap, heapmod=heapmod, stubq=stubq, BalProv=BalProv,
             FakeClock=FakeClock, ClientTimeoutSink=ClientTimeoutSink, Deadline=Deadline)
 
 
@@ -423,18 +434,43 @@ def _run_impl(case):
     return None
 
   def do_complete(req, jseed, kind, opi, again=False):
+    """kind = reply|error|timeout|ctx, optionally '+raise' (the caller's handler raises after the reply reached it;
+    the harness catches it where the transport/pool greenlet would) or '+reenter' (the caller issues a follow-up
+    request from inside its handler: the completion is recorded at that instant, then the dispatch)."""
+    base, _sep, mode = kind.partition('+')
     rnd.jseed = jseed
     del rnd.calls[:]
     stack = req['stack']
-    before = len(req['caller'].got)
+    caller = req['caller']
+    before = len(caller.got)
+    done = {'rec': False}
+
+    def rec_complete(res_extra=None):
+      j = rnd.calls[0] if rnd.calls else 0
+      res = {'t': 'put', 'rand': len(rnd.calls), 'j': j}
+      res.update(res_extra or {})
+      record(['complete', req['rid'], j], res, opi,
+             {'rid': req['rid'], 'nid': req['nid'], 'again': again, 'kind': kind,
+              'real_timeout_sink': bool(base == 'timeout' and req.get('timer') is not None),
+              'delivered': len(caller.got) - before})
+      done['rec'] = True
+
+    if mode == 'raise' and base != 'ctx':
+      caller.raises = True
+    elif mode == 'reenter' and base != 'ctx':
+      def hook():
+        rec_complete({'reentrant_followup': True})
+        do_dispatch(opi, {'reentrant': True})
+      caller.hook = hook
+    raised = False
     try:
-      if kind == 'ctx':
+      if base == 'ctx':
         ctxs = [c for (s, c) in stack.pushed if s is bal and c is not None]
         if ctxs:
           ctxs[0]()
-      elif kind == 'reply':
+      elif base == 'reply':
         stack.AsyncProcessResponseMessage(_S['MethodReturnMessage']('v'))
-      elif kind == 'error':
+      elif base == 'error':
         stack.AsyncProcessResponseMessage(_S['MethodReturnMessage'](error=Exception('server error')))
       elif req.get('timer') is not None:
         # the deadline fires: the real ClientTimeoutSink._TimeoutHelper completes the call
@@ -442,15 +478,17 @@ def _run_impl(case):
           req['timer']['action']()
       else:
         stack.AsyncProcessResponseMessage(_S['MethodReturnMessage'](error=_S['TimeoutError']()))
+    except _S['CallerError']:
+      raised = True
     except Exception as e:
-      record(['complete', req['rid'], 0], {'t': 'exc', 'exc': type(e).__name__}, opi,
-             {'rid': req['rid'], 'nid': req['nid'], 'again': again, 'kind': kind})
+      caller.hook, caller.raises = None, False
+      if not done['rec']:
+        record(['complete', req['rid'], 0], {'t': 'exc', 'exc': type(e).__name__}, opi,
+               {'rid': req['rid'], 'nid': req['nid'], 'again': again, 'kind': kind})
       return
-    j = rnd.calls[0] if rnd.calls else 0
-    record(['complete', req['rid'], j], {'t': 'put', 'rand': len(rnd.calls), 'j': j}, opi,
-           {'rid': req['rid'], 'nid': req['nid'], 'again': again, 'kind': kind,
-            'real_timeout_sink': bool(kind == 'timeout' and req.get('timer') is not None),
-            'delivered': len(req['caller'].got) - before})
+    caller.hook, caller.raises = None, False
+    if not done['rec']:
+      rec_complete({'caller_raised': True} if raised else None)
 
   def do_setchan(ch, st, opi, extra=None):
     ch._st = st
@@ -980,7 +1018,8 @@ def to_coq(case, obs):
 # -------------------------------------------------------------------------------------------------
 # generators
 # -------------------------------------------------------------------------------------------------
-KINDS = ['reply', 'reply', 'error', 'timeout', 'ctx']
+KINDS = ['reply', 'reply', 'error', 'timeout', 'ctx', 'reply+raise', 'error+raise', 'reply+reenter', 'timeout+reenter',
+         'timeout+raise']
 PROFILES = {
     # weights: dispatch, complete-any, complete-min, complete-max, recomplete, setchan, fault, join, leave, burst
     'load':   dict(dispatch=10, c_any=3, c_min=1, c_max=1, rec=0.3, chan=1.0, fault=0.1, join=0.4, leave=0.4, burst=0.0),
@@ -1203,6 +1242,10 @@ def stats(cases, obs):
         else:
           c['put_fixup_or_detached'] += 1
         c['complete_kind_' + str(st.get('kind'))] += 1
+        if res.get('caller_raised'):
+          c['complete_upper_sink_raised'] += 1
+        if res.get('reentrant_followup'):
+          c['complete_with_reentrant_followup_dispatch'] += 1
         if st.get('real_timeout_sink'):
           c['complete_timeout_through_real_ClientTimeoutSink'] += 1
       elif k in ('join', 'leave'):
